@@ -40,10 +40,21 @@ def gen_spec(rng):
     k = rng.randint(2, 5)
     names = ["A", "B", "C", "D", "E"][:k]
     rxns = []
+    # profile "one big import written in the import direction": a single `--> X_e` exchange may import 1000, every other bound of every
+    # exchange is small (the largest |bound| over all exchanges is then an upper bound)
+    big_import = rng.choice(names) if rng.random() < 0.2 else None
     for x in names:
         reactant = rng.random() < 0.5
         imp = rng.choice([0, 5, 10, 20, F(5, 2), 1000])
         exp = rng.choice([0, 0, 10, 1000, 1000, F(7, 2)])
+        if big_import is not None:
+            reactant = reactant and x != big_import
+            imp = 1000 if x == big_import else rng.choice([0, 5, 10, 20, F(5, 2)])
+            exp = rng.choice([0, 0, 10, F(7, 2)])
+        elif rng.random() < 0.12:
+            # forced export: the exchange has to carry flux out of the system (a positive lower bound for `X_e -->`)
+            imp = -rng.choice([F(1, 8), 1, F(1, 2)])      # dyadic: the oracle compares bounds exactly
+            exp = rng.choice([10, 1000])
         if reactant:     # X_e -->   import = negative flux
             rxns.append({"id": f"EX_{x}_e", "st": {f"{x}_e": "-1"}, "lb": n2s(-imp), "ub": n2s(exp), "rule": ""})
         else:            # --> X_e   import = positive flux
